@@ -64,6 +64,15 @@ RECURSIVE DistOfSeq(_, _, _)
 DistOfSeq(q, D, set) == IF q = <<>> THEN EmptyDist ELSE DistPlus(TreeDist(D[Head(q)], set), DistOfSeq(Tail(q), D, set))
 SummaryOfBag(q, D, set) == DistOfSeq(SortIds(q), D, set)
 
+\* order statistics of a bag of integers (what the per-split length / age summaries are computed from)
+BagN(b) == SumFn(DOMAIN b, b)
+BagSum(b) == SumFn(DOMAIN b, [v \in DOMAIN b |-> v * b[v]])
+RECURSIVE SortedOfBag(_)
+SortedOfBag(b) == IF DOMAIN b = {} THEN <<>>
+                  ELSE LET m == Min(DOMAIN b) IN [i \in 1..b[m] |-> m] \o SortedOfBag([v \in (DOMAIN b) \ {m} |-> b[v]])
+MedianTwice(b) == LET sq == SortedOfBag(b)  n == Len(sq)                       \* twice the median: an integer
+                  IN IF n % 2 = 1 THEN 2 * sq[(n + 1) \div 2] ELSE sq[n \div 2] + sq[n \div 2 + 1]
+
 \* ------------------------------------------------------------ arrays
 NewArray(rooting, set) == [trees |-> <<>>, rooting |-> rooting, set |-> set, splits |-> <<>>, lens |-> <<>>,
                            leafsets |-> <<>>, weights |-> <<>>, dist |-> EmptyDist]
